@@ -215,8 +215,9 @@ func (e *cloneSetEnv) EnvActions(w *World) []string {
 	if len(pods) != R {
 		out = append(out, "env.scale")
 	}
-	allowed := R - partitionCount(cs.Spec.UpdateStrategy.Partition, R)
-	if !cs.Spec.UpdateStrategy.Paused && updated < allowed && updated < len(pods) {
+	// the controller keeps at least ceil(partition) pods at old revisions (relative to spec.replicas)
+	old := len(pods) - updated
+	if !cs.Spec.UpdateStrategy.Paused && old > partitionCount(cs.Spec.UpdateStrategy.Partition, R) {
 		out = append(out, "env.update")
 	}
 	if unready > 0 {
@@ -291,8 +292,9 @@ func (e *cloneSetEnv) EnvDo(w *World, a string) error {
 					updated++
 				}
 			}
+			// scale-up creates pods at the current revision while fewer than ceil(partition) old pods exist
 			rev := RevOf(cs.Status.CurrentRevision)
-			if updated < R-partitionCount(cs.Spec.UpdateStrategy.Partition, R) || rev == 0 {
+			if len(pods)-updated >= partitionCount(cs.Spec.UpdateStrategy.Partition, R) || rev == 0 {
 				rev = upd
 			}
 			if err := e.createPod(w, cs, rev, false); err != nil {
